@@ -21,6 +21,7 @@
 (*   empty        ()                                                       *)
 (*   wrong_str, wrong_num, wrong_dur                                       *)
 (*                an atomic value of another type: 's', 1, a duration      *)
+(*   wrong_numstr the string '1' (numeric-looking, but an xs:string)       *)
 (*   seq          two valid items                                          *)
 (*   func, map, array   a function item, map{}, []                         *)
 (*   bigneg       -1000000000000                                           *)
@@ -41,7 +42,7 @@ VARIABLES sig, args
 vars == <<sig, args>>
 
 AllClasses == {"valid", "attr", "elem", "untyped_bad", "untyped_ok", "empty", "wrong_str", "wrong_num",
-               "wrong_dur", "seq", "func", "map", "array", "bigneg", "baduri", "nul"}
+               "wrong_dur", "wrong_numstr", "seq", "func", "map", "array", "bigneg", "baduri", "nul"}
 
 ASSUME ClassesOK == Classes \subseteq AllClasses \ {"valid"}
 ASSUME ArityOK == \A i \in 1..Len(Arity) : Arity[i] \in 0..9
@@ -71,5 +72,5 @@ Bounded == Cardinality(Deviating(args)) <= MaxDev
 RECURSIVE SumArity(_)
 SumArity(n) == IF n = 0 THEN 0 ELSE Arity[n] + SumArity(n - 1)
 PlanSize1 == Len(Arity) + SumArity(Len(Arity)) * Cardinality(Classes)
-ASSUME PrintPlanSize == PrintT(<<"plan_size_1", PlanSize1>>)
+(* printed by the generated root module: ASSUME PrintT(<<"plan_size_1", PlanSize1>>) *)
 =============================================================================
